@@ -70,7 +70,7 @@ func c02Grammar(res *explore.Result, g *gram.Grammar, inputs [][]byte, keepGoing
 					res.Add("nontrivial", 1)
 				}
 				res.Outcome(fmt.Sprintf("max_active=%d,remaining=%d", b.Mon.MaxActive, len(w)-s))
-				c := Case{Grammar: gs, Input: string(w)}
+				c := Case{Placement: impl.Placement, Grammar: gs, Input: string(w)}
 				switch {
 				case o.Depth != "":
 					if !violated || keepGoing {
@@ -99,7 +99,7 @@ func c02Grammar(res *explore.Result, g *gram.Grammar, inputs [][]byte, keepGoing
 
 func c02Run(env *explore.Env) *explore.Result {
 	res := explore.NewResult()
-	eachGrammar(env, res, c02Specs(env.Tier), seedCorpus, func(g *gram.Grammar, inputs [][]byte, _ bool) {
+	eachGrammarPlaced(env, res, c02Specs(env.Tier), seedCorpus, func(g *gram.Grammar, inputs [][]byte, _ bool) {
 		c02Grammar(res, g, inputs, false)
 	})
 	return res
